@@ -32,7 +32,7 @@ PART 1 - two breaking changes (a, b). Each on its own breaks the property: plaus
 
 For X in {{a, b}} write under {wt}/_seed/X/ : patch.diff (git diff of the product code only; must apply to the worktree HEAD with `git apply`), demo.sh (+ .tsh / Go files) that FAILS (exit != 0, clear message) with change X applied and PASSES (exit 0) on the unchanged tree (it must rebuild tsh from the current worktree itself and use paths relative to its own directory), and notes.md (what, why it breaks the property, what it needs to manifest, commands and outputs in both states, test-suite result). Verify both states yourself: apply; demo must fail; git diff -- . ':(exclude)_seed' > _seed/X/patch.diff ; git checkout -- . ; demo must pass; git apply the patch; tests must pass; git checkout -- .
 
-PART 2 - two behaviour-preserving refactorings (n1, n2) of code the property depends on: the kind of clean-up a maintainer does without changing any output (rename, extract or inline a helper, restructure a condition or a loop, replace a hand-written idiom by a library call or vice versa, reorder independent statements, change how a value is computed to an equivalent form, move state between a field and a local where that is equivalent, split a long function, merge two near-duplicate functions, replace a flag by an early return, a slice used as a stack by a struct field or the reverse). They must be REAL refactorings in functions that matter for the property (not comments or formatting), must not change the emitted scripts or the acceptance/rejection of any program, and should differ from each other in kind and in the layer they touch (one of them in a converter, the transpiler or the lexer if the property allows it). n1 is a LARGER restructuring of 40-90 changed lines: split a long function into two or three, introduce a small type or table that replaces parallel variables or a switch, change a data structure (slice used as stack <-> counter/struct field, list <-> map/set, string building <-> strings.Builder), move a responsibility from one function or layer to another one that already has the information, or replace a hand-written loop by library calls (slices, maps, strings) or the reverse. n2 is a smaller one of 10-40 changed lines of a different kind. (Round 7 and later: avoid these refactorings, they have been done already: extracting string scanning out of Tokenize; merging evaluateBreak and evaluateContinue; replacing the bash funcs stack by a counter; iterative getUsedFuncs with a work list; helper flags as a map; a forInfo struct for the batch labels. (Round 8: also done already: a position type/function for rows and columns in the lexer; a nameSequence type for the batch name counters; a generic stack type; Comparison/BinaryOperation operator tables; type switch or map dispatch in evaluateExpression; evaluateIf split into helpers; scope counters instead of the scope stack; funcSet for the call graph.) Prefer something else: closures vs methods, an interface or small type with methods, generics, table-driven dispatch, early returns vs nested ifs across a whole function, moving a computation between parser/transpiler/converter, changing the order in which independent facts are computed, replacing recursion by iteration or the reverse, fmt.Sprintf vs concatenation vs strings.Builder, switch vs map lookup.) For Y in {{n1, n2}} write under {wt}/_seed/Y/ : patch.diff, and equal.sh which builds tsh WITHOUT and WITH the patch and shows that for a corpus of at least 25 programs (write your own small .tsh programs that exercise the refactored code, including rejected programs, plus anything you like from the repository) the outputs for -t bash and -t batch, the exit status and the error text are byte-identical; exit 0 if identical, 1 otherwise. Also run the test suite with the patch (must pass) and say so in notes.md, together with an argument why the refactoring cannot change behaviour.
+PART 2 - two behaviour-preserving refactorings (n1, n2) of code the property depends on: the kind of clean-up a maintainer does without changing any output (rename, extract or inline a helper, restructure a condition or a loop, replace a hand-written idiom by a library call or vice versa, reorder independent statements, change how a value is computed to an equivalent form, move state between a field and a local where that is equivalent, split a long function, merge two near-duplicate functions, replace a flag by an early return, a slice used as a stack by a struct field or the reverse). They must be REAL refactorings in functions that matter for the property (not comments or formatting), must not change the emitted scripts or the acceptance/rejection of any program, and should differ from each other in kind and in the layer they touch (one of them in a converter, the transpiler or the lexer if the property allows it). n1 is a LARGER restructuring of 40-90 changed lines: split a long function into two or three, introduce a small type or table that replaces parallel variables or a switch, change a data structure (slice used as stack <-> counter/struct field, list <-> map/set, string building <-> strings.Builder), move a responsibility from one function or layer to another one that already has the information, or replace a hand-written loop by library calls (slices, maps, strings) or the reverse. n2 is a smaller one of 10-40 changed lines of a different kind. (Round 7 and later: avoid these refactorings, they have been done already: extracting string scanning out of Tokenize; merging evaluateBreak and evaluateContinue; replacing the bash funcs stack by a counter; iterative getUsedFuncs with a work list; helper flags as a map; a forInfo struct for the batch labels. (Round 8: also done already: a position type/function for rows and columns in the lexer; a nameSequence type for the batch name counters; a generic stack type; Comparison/BinaryOperation operator tables; type switch or map dispatch in evaluateExpression; evaluateIf split into helpers; scope counters instead of the scope stack; funcSet for the call graph.) (Round 9: also done already: a lines/section type with an add method for the batch output buffers; one reader for all single-argument built-ins that is handed a type predicate and a constructor; evaluateEach / evaluateFirstValues helpers in the transpiler; a table of scanner functions in the lexer; package-level compiled regular expressions; a Pipeline helper shared by both converters; a builtInLimits type; splitting evaluateImports into resolveImport and linkImportedStatements; a map lookup by decreasing length for the punctuation tokens; checkDefinitionNameTokens / newDefinedVariables.) Prefer something else: closures vs methods, an interface or small type with methods, generics, table-driven dispatch, early returns vs nested ifs across a whole function, moving a computation between parser/transpiler/converter, changing the order in which independent facts are computed, replacing recursion by iteration or the reverse, fmt.Sprintf vs concatenation vs strings.Builder, switch vs map lookup.) For Y in {{n1, n2}} write under {wt}/_seed/Y/ : patch.diff, and equal.sh which builds tsh WITHOUT and WITH the patch and shows that for a corpus of at least 25 programs (write your own small .tsh programs that exercise the refactored code, including rejected programs, plus anything you like from the repository) the outputs for -t bash and -t batch, the exit status and the error text are byte-identical; exit 0 if identical, 1 otherwise. Also run the test suite with the patch (must pass) and say so in notes.md, together with an argument why the refactoring cannot change behaviour.
 
 If while reading you notice behaviour of the UNCHANGED tree that already violates the property, list it at the end of your summary (one line each, with a minimal program); do not use it as one of your changes.
 At the end leave tracked files unmodified (git checkout -- .); _seed/ stays as untracked directory.
@@ -42,7 +42,8 @@ os.makedirs(f'/tmp/wt{N}', exist_ok=True)
 for pid,d in props.items():
     if pid=='C15': continue
     wt=f'/tmp/wt{N}/{pid}'
-    subprocess.run(['git','-C','/repo','worktree','add','--detach','-q',wt,'HEAD'],check=True)
+    if not os.path.isdir(wt):
+        subprocess.run(['git','-C','/repo','worktree','add','--detach','-q',wt,'HEAD'],check=True)
     q=d['quantifier']['text']
     txt=base.format(wt=wt,N=N,pid=pid,title=d['title'],statement=d['statement'],quant=q,why=d['why_tests_cant'])
     open(f'/tmp/wt{N}/{pid}.prompt.txt','w').write(txt)
